@@ -32,7 +32,7 @@ var c01Spellings = []enum.Spelling{
 	{Unit: "  ", Bullets: []byte("-"), Heading: true},
 }
 
-var hostileNames = []string{"a", "- x", "*", "é日本", " a", "a ", "a-b", "+x*", "#h", "a  b"}
+var hostileNames = []string{"a", "- x", "*", "é日本", " a", "a ", "a-b", "+x*", "#h", "a  b", "└── x", "│   y", "a\tb"} // incl. names that look like branches
 
 type c01Replay struct {
 	Kind  string     `json:"kind"`
